@@ -156,8 +156,8 @@ func solveOne(o *Obligation, file string, cfg SolverConfig) {
 	ctx := context.Background()
 	// stage 1: z3-new, short timeout
 	t1 := cfg.TimeoutS
-	if t1 > 8 {
-		t1 = 8
+	if t1 > 15 {
+		t1 = 15
 	}
 	if o.Kind == "cover" {
 		t1 = 2
